@@ -30,7 +30,7 @@ pub fn install_panic_hook() {
             .location()
             .map(|l| format!("{}:{}", l.file(), l.line()))
             .unwrap_or_default();
-        if GUARD_DEPTH.with(|d| d.get()) == 0 {
+        if GUARD_DEPTH.with(|d| d.get()) == 0 || std::env::var_os("VERIF_DEBUG_PANIC").is_some() {
             // a panic of the harness itself: make it visible
             eprintln!("harness panic: {} @ {}", msg, loc);
         }
